@@ -525,10 +525,12 @@ fn spec_clamp01_is_clamp() {
 }
 
 // ---------------------------------------------------------------------------------------------------
-// (3) entry points: the rectangle / offset arithmetic of patch() and of blend()
+// (3) entry point patch(): rectangle / offset arithmetic, channel <-> blending entry, alpha planes
+//     (the region arithmetic at the top of blend() is NOT under contract yet: it needs Reference / FrameRenderHandle
+//      values, i.e. the C08 machinery, around the same kernel model -- not done in this unit)
 // ---------------------------------------------------------------------------------------------------
 // The kernels above are proved for every rectangle handed to them; what follows decides WHICH rectangle, WHICH buffers
-// and WHICH alpha planes the two entry points hand over. Coordinates: every channel of an ImageWithRegion carries the
+// and WHICH alpha planes patch() hands over. Coordinates: every channel of an ImageWithRegion carries the
 // frame rectangle (Region) its buffer covers; buffer position (px, py) of a channel with region R is frame sample
 // (R.left + px, R.top + py).
 //
@@ -1168,12 +1170,16 @@ fn patch_total_alpha_mode_without_extra_channels() {
     let mut infos = ManuallyDrop::new([entry_of(entry)]);
     let mut targets = ManuallyDrop::new([PatchTarget { x: 0, y: 0, blending: stack_vec(&mut infos) }]);
     let patch_ref = PatchRef { ref_idx: 0, x0: 0, y0: 0, width: 2, height: 1, patch_targets: stack_vec(&mut targets) };
+    // must return (the totality obligation: no index out of bounds on ec_info[alpha_idx]); an alpha blend mode that names a
+    // non-existent alpha channel is rejected with an error since the fix, and if a future version blends instead, it must do so
+    // as the standard says for a missing alpha (kBlend* acts as kReplace, kMulAdd* as kAdd)
     let r = patch(&ih, &mut canvas, &reference, &patch_ref);
-    assert!(r.is_ok(), "[C01] patch() on float buffers has no failure path");
-    let px = small_i32(0, 1) as usize;
-    let g = PatchGeo { canvas: region, reference: region, src: (0, 0), size: (2, 1), target: (0, 0) };
-    let expect = spec_patched_sample(1, &[], &[entry], g, &old, &refs, 0, px, 0);
-    assert!(same_f32(sample_of(&canvas, 0, px, 0), expect), "[C05] without extra channels kBlend* acts as kReplace and kMulAdd* as kAdd");
+    if r.is_ok() {
+        let px = small_i32(0, 1) as usize;
+        let g = PatchGeo { canvas: region, reference: region, src: (0, 0), size: (2, 1), target: (0, 0) };
+        let expect = spec_patched_sample(1, &[], &[entry], g, &old, &refs, 0, px, 0);
+        assert!(same_f32(sample_of(&canvas, 0, px, 0), expect), "[C05] without extra channels kBlend* acts as kReplace and kMulAdd* as kAdd");
+    }
     kani::cover!(entry.0 == 6);
     std::mem::forget(r);
     std::mem::forget(canvas);
